@@ -708,35 +708,37 @@ def mon_c08(tr: Trace) -> list[Violation]:
                 out.append(Violation("C08/handler_entered_without_failure", f"handler {rec[1]} entered with a non-failure event", _replay(tr)))
             elif expected_owner(spec, sfe["step"]) != rec[1]:
                 out.append(Violation("C08/wrong_handler_entered", f"handler {rec[1]} entered for a failure of {sfe['step']} owned by {expected_owner(spec, sfe['step'])}", _replay(tr)))
-    # per lineage, counted from the TRACE (not from the counts the state carries): a lineage is an event and everything
-    # returned by the invocations it (transitively) triggered, handler outputs included; ctx.send_event starts a new lineage
+    # per lineage, counted from the TRACE (not from the counts the state carries).  A lineage is a PATH: an event, the events
+    # returned by the invocation it triggered, and so on (handler outputs included); an event handed to two steps starts two
+    # branches, each with the budget left at that point; ctx.send_event starts a new lineage
     if not spec.get("det_uids"):
         parent: dict = {}
+        out_of: dict = {}  # uid of an event returned by a handler -> that handler
         for rec in tr.steps:
             if rec[0] == "exit" and rec[5].get("ret") and rec[5]["ret"][1] is not None:
                 u = rec[2]
                 parent[rec[5]["ret"][1]] = u[2] if isinstance(u, tuple) else u
+                if isinstance(u, tuple) and rec[1] in maxrec:
+                    out_of[rec[5]["ret"][1]] = rec[1]
 
-        def root(u: Any) -> Any:
-            seen = set()
-            while u in parent and u not in seen:
+        def chain(u: Any) -> list:
+            seen, path = set(), []
+            while u is not None and u not in seen:
                 seen.add(u)
-                u = parent[u]
-            return u
+                path.append(u)
+                u = parent.get(u)
+            return path
 
-        entries: dict = {}
+        waited_uids = {(rec[2][2] if isinstance(rec[2], tuple) else rec[2]) for rec in tr.steps
+                       if rec[0] == "exit" and rec[5].get("status") == "raise:WaitingForEvent"}
         for rec in tr.steps:
             if rec[0] == "enter" and rec[1] in maxrec and isinstance(rec[2], tuple) and rec[3] == 0:
-                key = (rec[1], root(rec[2][2]))
-                entries[key] = entries.get(key, 0) + 1
-        # lineages on which an invocation suspended in wait_for_event (its replay is a fresh EventAttempt: classifying fact)
-        waited = {root(rec[2][2] if isinstance(rec[2], tuple) else rec[2]) for rec in tr.steps
-                  if rec[0] == "exit" and rec[5].get("status") == "raise:WaitingForEvent"}
-        for (h, r), n in entries.items():
-            if n > maxrec[h]:
-                sig = "C08/handler_entered_beyond_budget" + (":lineage_suspended_in_wait" if r in waited else "")
-                out.append(Violation(sig, f"handler {h} (max_recoveries={maxrec[h]}) was entered {n} times for the lineage of event {r}", _replay(tr)))
-                return out
+                h, path = rec[1], chain(rec[2][2])
+                n = 1 + sum(1 for u in path if out_of.get(u) == h)
+                if n > maxrec[h]:
+                    sig = "C08/handler_entered_beyond_budget" + (":lineage_suspended_in_wait" if any(u in waited_uids for u in path) else "")
+                    out.append(Violation(sig, f"handler {h} (max_recoveries={maxrec[h]}) was entered {n} times along the lineage {list(reversed(path))}", _replay(tr)))
+                    return out
     # per lineage: recovery counts never exceed the budget anywhere in the state
     for c in _runner_calls(tr):
         if c.after is None:
